@@ -312,6 +312,8 @@ def run(task):
             if sum(ms) <= 3:
                 s2 = star(c, ms, lead="C")      # centre with an incoming chain bond
                 check(s2, r)
+            if sum(ms) <= 6:
+                check(star(c, ms, lead="CC.[Na+]."), r)      # the centre in the third fragment
     elif arg[0] == "elements":
         for el in arg[1]:
             for form in ("[%s]", "[%s+]", "[%s-]", "[%sH]", "[%sH2-]"):
